@@ -216,12 +216,35 @@ class Interface:
             prelude.declare_fun('map_key', [t.INT, t.INT], t.VAL)
             n = t.app('map_len', t.INT, m.ident)
             st.assume(t.ge(n, t.ZERO))
+            if getattr(m, 'keys', 'dyn') == 'str':
+                # a mapping keyed by strings (FlagsEnum.flags: keyword names): every key is a str value
+                qi = t.var('mk!', t.INT)
+                st.assume(t.forall([qi], t.app('(_ is VStr)', t.BOOL, t.app('map_key', t.VAL, m.ident, qi)), pats=[[t.app('map_key', t.VAL, m.ident, qi)]]))
 
             def at(i):
                 k = t.app('map_key', t.VAL, m.ident, i)
                 kv = VStr(t.app('sval', t.STR, k)) if getattr(m, 'keys', 'dyn') == 'str' else VDyn(k)
                 return VTuple([kv, self.map_value_pure(m, t.app('map_get', t.VAL, m.ident, k))])
             return [(st, VIter('seq', n=n, at=at))]
+        if name in ('setdefault', 'update', 'pop', 'popitem', 'clear', '__setitem__', '__delitem__'):
+            # a mutating dict method on a mapping that belongs to the construct (C17: constructs are not modified by use)
+            eng.frame_violations.append(('mutation of a mapping attribute of the construct through dict.%s' % name, st.clone()))
+            if name == 'setdefault' and args:
+                out = []
+                h, nh = eng.fork(st, self.hashable(eng, args[0], st))
+                if nh is not None:
+                    out.extend(eng.raise_(nh, 'TypeError', origin='unhashable dict key'))
+                if h is not None:
+                    kt = eng.to_dyn(args[0], h)
+                    d = args[1] if len(args) > 1 else NONE
+                    a, b = eng.fork(h, t.app('map_has', t.BOOL, m.ident, kt))
+                    if a is not None:
+                        out.append((a, self.map_value(eng, m, t.app('map_get', t.VAL, m.ident, kt), a)))
+                    if b is not None:
+                        out.append((b, d))
+                return out
+            if name in ('update', 'clear'):
+                return [(st, NONE)]
         raise OutOfReach('dict.%s on a construct mapping' % name)
 
     def map_value_pure(self, m, valterm):
